@@ -90,9 +90,9 @@ struct ShiftLoopOp {
 struct CntSymProd : public Spectra::DenseSymMatProd<double> { OpLog* log; CntSymProd(const Mat& A, OpLog& l) : Spectra::DenseSymMatProd<double>(A), log(&l) {}
     void perform_op(const double* x, double* y) const { log->enter(x, y, rows()); Spectra::DenseSymMatProd<double>::perform_op(x, y); }
     Mat operator*(const Eigen::Ref<const Mat>& X) const { if (X.cols() == 0) return Mat(X.rows(), 0);   // DenseSymMatProd::operator* on a 0-column block (Davidson right after a restart) binds a reference to a null data pointer inside Eigen (UBSan): not this property's subject
-        log->count++; if (log->throw_at >= 0 && log->count == log->throw_at) throw UserFault(log->count); return Spectra::DenseSymMatProd<double>::operator*(X); } };
+        log->count++; if (log->throw_at >= 0 && log->count == log->throw_at) log->raise(log->count); return Spectra::DenseSymMatProd<double>::operator*(X); } };
 struct CntHermProd : public Spectra::DenseHermMatProd<CD> { OpLog* log; CntHermProd(const CMat& A, OpLog& l) : Spectra::DenseHermMatProd<CD>(A), log(&l) {}
-    void perform_op(const CD* x, CD* y) const { log->count++; if (log->throw_at >= 0 && log->count == log->throw_at) throw UserFault(log->count); Spectra::DenseHermMatProd<CD>::perform_op(x, y); } };
+    void perform_op(const CD* x, CD* y) const { log->count++; if (log->throw_at >= 0 && log->count == log->throw_at) log->raise(log->count); Spectra::DenseHermMatProd<CD>::perform_op(x, y); } };
 
 // ---- uniform view ----
 struct Handle {
@@ -213,6 +213,7 @@ static void run_history(Family& F, Handle& h, Rng& r, Ctx& c, Rec* rec, bool& dr
             try { long ret = h.compute(b.sel, b.maxit, b.tol, b.sort); computed = true; c.hist += std::string(tag) + "compute(" + str(b.sel) + "," + str(b.maxit) + "," + str(b.tol) + "," + str(b.sort) + ")=" + str(ret) + ";"; out.count(ret >= F.nev ? "hist_converged" : "hist_not_converged");
                   if (rec) rec->resp += " | ret=" + str(ret) + " " + h.stat_seg(); }
             catch (const UserFault&) { threw = true; ex = "UserFault"; if (rec) rec->ok = false; }
+            catch (const RawFault&) { threw = true; ex = "RawFault"; if (rec) rec->ok = false; }
             catch (const std::invalid_argument&) { threw = true; ex = "invalid_argument"; if (rec) rec->resp += " | throw std::invalid_argument"; }
             catch (const std::runtime_error&) { threw = true; ex = "runtime_error"; if (rec) rec->resp += " | throw std::runtime_error"; }
             catch (const std::logic_error&) { threw = true; ex = "logic_error"; if (rec) rec->resp += " | throw other"; }
@@ -236,12 +237,14 @@ static void run_history(Family& F, Handle& h, Rng& r, Ctx& c, Rec* rec, bool& dr
                 if (N < 1) break;
                 if (!do_init(false)) break;
                 long t = r.coin(0.4) ? std::max<long>(1, N - (long) r.below(2 * F.nev + 2)) : 1 + (long) r.below(N);
-                log.throw_at = log.count + t; do_compute(a, "op-throws:"); log.throw_at = -1; break; }
+                log.throw_at = log.count + t; log.throw_kind = (int) (t % 2);   // every second fault is of a type not derived from std::exception
+                do_compute(a, "op-throws:"); log.throw_at = -1; log.throw_kind = 0; break; }
             case 6: {   // the user's operator throws inside init()
                 if (rec) rec->ok = false;
-                log.throw_at = log.count + r.range(1, 2); if (st) st->begin_call();
+                log.throw_at = log.count + r.range(1, 2); log.throw_kind = (int) (log.throw_at % 2); if (st) st->begin_call();
                 try { h.init(a.default_init ? nullptr : &a.v0); if (st) st->end_call('I', false); } catch (const UserFault&) { if (st) st->end_call('I', true); c.hist += "init()!UserFault;"; out.count("hist_threw_UserFault_init"); }
-                log.throw_at = -1; break; }
+                catch (const RawFault&) { if (st) st->end_call('I', true); c.hist += "init()!RawFault;"; out.count("hist_threw_RawFault_init"); }
+                log.throw_at = -1; log.throw_kind = 0; break; }
         }
     }
 }
